@@ -22,7 +22,7 @@ for id in $IDS; do
     *"exit=0"*) echo "MISSED $id"; missed=$((missed+1));;
     *) echo "ERROR $id $out";;
   esac
-  rm -rf /tmp/vb_$(basename $WT)_regress_${id}_$prop /tmp/vb_$(basename $WT)_regress_${id}_$prop.out /tmp/vb_$(basename $WT)_regress_${id}_$prop.err
+  rm -f /tmp/vb_$(basename $WT)_regress_${id}_$prop.out /tmp/vb_$(basename $WT)_regress_${id}_$prop.err
 done
 git -C /repo worktree remove --force $WT
 echo "missed=$missed"
